@@ -33,6 +33,7 @@ RepSeq(min, max) == SetToSortSeq(Reps(min, max), <)
 \* comparison has to happen in the value space)
 IVal(tp, i) ==
   CASE tp = "int"     -> IF i % 2 = 1 THEN "1" ELSE "-007"
+    [] tp = "long"    -> IF i % 2 = 1 THEN "2147483648" ELSE "-5"          \* another XSD built-in that binds to the same Python type as int
     [] tp = "string"  -> IF i % 2 = 1 THEN "t" ELSE "a b"
     [] tp = "boolean" -> IF i % 2 = 1 THEN "true" ELSE "0"
     [] tp = "decimal" -> IF i % 2 = 1 THEN "1.50" ELSE "-0.5"
